@@ -120,7 +120,11 @@ def _drive(cfg, part, dom, n, T, prm, P, RU, D, box, before, rng):
     rnd = random.Random(cfg["seed"] + 3)
     t0 = cfg.get("t0", 1)
     midq = set(cfg.get("midq", ()))
+    if cfg.get("preq"):        # a recommendation asked for before the first round (VROOM grows its tree to the depth cap in that call)
+        rec.glp()
     for i in range(T):
+        if rec.failed:
+            break
         pt = rec.pull(t0 + i)
         if rec.failed:
             break
